@@ -10,8 +10,8 @@ VARS = ["db", "PK", "OsIndications", "osindications", "db@global", "dbx@global",
 VALS = ["empty", "d1", "d1b", "d3", "dc", "d1c", "huge", "zlead"]
 
 
-def emit(c, depth, simulate=None):
-    cfg = CFG % ("replace", depth) + "INIT MCInit\nNEXT MCNext\nCONSTRAINT Emit\nCHECK_DEADLOCK FALSE\n"
+def emit(c, depth, simulate=None, small=False):
+    cfg = (CFG.replace("MCVars", "MCVarsSmall").replace("MCVals", "MCValsSmall") if small else CFG) % ("replace", depth) + "INIT MCInit\nNEXT MCNext\nCONSTRAINT Emit\nCHECK_DEADLOCK FALSE\n"
     if simulate:
         r = c.tlc("MC_EfiVarFs", "g.cfg", files={"g.cfg": cfg}, simulate=simulate, depth=depth * 5 + 2, name="simulate-%d" % depth, must_pass=False)
     else:
@@ -45,7 +45,7 @@ def random_histories(c, n, length):
 def run(c):
     c.build_worker()
     # design level: register semantics hold with replace-on-write and provably fail with plain overwrite
-    chk = CFG % ("replace", 3 if c.quick else 4) + "SPECIFICATION MCSpec\nINVARIANTS Register ReadsLastWrite OneWrite NoTruncExcl\nVIEW View\nCHECK_DEADLOCK FALSE\n"
+    chk = (CFG if c.quick else CFG.replace("MCVars", "MCVarsSmall").replace("MCVals", "MCValsSmall")) % ("replace", 3 if c.quick else 4) + "SPECIFICATION MCSpec\nINVARIANTS Register ReadsLastWrite OneWrite NoTruncExcl\nVIEW View\nCHECK_DEADLOCK FALSE\n"
     c.tlc("MC_EfiVarFs", "chk.cfg", files={"chk.cfg": chk}, name="design-check", timeout=1800)
     live = CFG % ("replace", 2) + "SPECIFICATION MCLive\nPROPERTY CallsComplete\nCHECK_DEADLOCK FALSE\n"
     c.tlc("MC_EfiVarFs", "live.cfg", files={"live.cfg": live}, name="liveness", timeout=1800)
@@ -59,7 +59,7 @@ def run(c):
     if c.quick:
         hs += emit(c, 4, simulate=400) + emit(c, 7, simulate=200) + random_histories(c, 150, 30)
     else:
-        hs += emit(c, 3) + emit(c, 6, simulate=4000) + random_histories(c, 2000, 40)
+        hs += emit(c, 3, small=True) + emit(c, 6, simulate=4000) + random_histories(c, 2000, 40)
     # read, then rewrite with another value of the same length (within the same second), then read: for every variable, plain and signed
     W = lambda v, val, sg: {"op": "write", "v": v, "val": val, "signed": sg}
     R = lambda v: {"op": "read", "v": v, "val": "-", "signed": False}
@@ -103,10 +103,10 @@ def run(c):
     c.cov["evaluations"] = len(scen)
     c.cov["traces_validated_against_impl"] = len(scen)
     c.cov["exhaustive_depth"] = 2 if c.quick else 3
-    c.cov["rule"] = ("API-grain histories (plain/signed writes of 6 values incl. empty, a value that is a proper prefix of another and one of 70 000 bytes, reads) over db, PK and two "
-                     "ordinary variables whose names differ only in letter case, generated by TLC from spec/EfiVarFs.tla (all of depth 2%s, -simulate deeper), seeded random length-30+ histories over 6 "
+    c.cov["rule"] = ("API-grain histories (plain/signed writes of 8 values incl. empty, a value that is a proper prefix of another, one that begins with zero bytes and one of 70 000 bytes, reads) "
+                     "over db, PK, two ordinary variables whose names differ only in letter case, an ordinary variable called db under another GUID and one without attributes, generated by TLC from spec/EfiVarFs.tla (all of depth 2%s, -simulate deeper), seeded random length-30+ histories over 6 "
                      "variables, a third of them on pre-populated stores; validated by spec/EfiVarFsTrace.tla. non-trivial = at least one write and one read") % (
-                         "" if c.quick else " and 3")
+                         "" if c.quick else " and, over 4 variables x 5 values, of depth 3")
     for s in scen[:1] + scen[nexh:nexh + 1] + scen[-1:]:
         c.sample(s)
     import flow_common
